@@ -11,7 +11,12 @@ func funcComputedCompute(ctx *Context, this *VMValue, params []*VMValue) *VMValu
 }
 
 func funcArrayKeepLow(ctx *Context, this *VMValue, params []*VMValue) *VMValue {
-	isAllInt, ret := this.ArrayFuncKeepLow(ctx, params[0].MustReadInt())
+	num, ok := params[0].ReadInt()
+	if !ok {
+		ctx.Error = errors.New("(arr.kl)类型错误: 参数必须为int")
+		return nil
+	}
+	isAllInt, ret := this.ArrayFuncKeepLow(ctx, num)
 	if isAllInt {
 		return NewIntVal(IntType(ret))
 	} else {
@@ -20,7 +25,12 @@ func funcArrayKeepLow(ctx *Context, this *VMValue, params []*VMValue) *VMValue {
 }
 
 func funcArrayKeepHigh(ctx *Context, this *VMValue, params []*VMValue) *VMValue {
-	isAllInt, ret := this.ArrayFuncKeepHigh(ctx, params[0].MustReadInt())
+	num, ok := params[0].ReadInt()
+	if !ok {
+		ctx.Error = errors.New("(arr.kh)类型错误: 参数必须为int")
+		return nil
+	}
+	isAllInt, ret := this.ArrayFuncKeepHigh(ctx, num)
 	if isAllInt {
 		return NewIntVal(IntType(ret))
 	} else {
@@ -76,6 +86,10 @@ func funcArrayShuttle(ctx *Context, this *VMValue, params []*VMValue) *VMValue {
 
 func funcArrayRand(ctx *Context, this *VMValue, params []*VMValue) *VMValue {
 	arr, _ := this.ReadArray()
+	if len(arr.List) == 0 {
+		ctx.Error = errors.New("(arr.rand)值错误: 数组为空")
+		return nil
+	}
 	return arr.List[ctxRandIntn(ctx, len(arr.List))]
 }
 
@@ -86,6 +100,10 @@ func funcArrayRandSize(ctx *Context, this *VMValue, params []*VMValue) *VMValue 
 	arr, _ = newArr.ReadArray()
 
 	if val, ok := params[0].ReadInt(); ok {
+		if val < 0 || val > IntType(len(arr.List)) {
+			ctx.Error = errors.New("(arr.randSize)值错误: 个数超出数组长度范围")
+			return nil
+		}
 		arr.List = arr.List[:val]
 		return newArr
 	} else {
